@@ -25,6 +25,26 @@ type inlineRet struct {
 }
 
 func (x *Exec) inlinable(callee *ssa.Function) bool {
+	return x.inlinableLoops(callee, false)
+}
+
+// countLoops: number of loop headers of fn.
+func countLoops(fn *ssa.Function) int {
+	hs := map[*ssa.BasicBlock]bool{}
+	for _, b := range fn.Blocks {
+		for _, s := range b.Succs {
+			if s.Dominates(b) {
+				hs[s] = true
+			}
+		}
+	}
+	return len(hs)
+}
+
+// inlinableLoops: as inlinable; with loopsOK a helper that contains loops is
+// accepted too (its loops then take the next loop ordinals of the caller's
+// contract, see findLoops: "the loop moved into a helper").
+func (x *Exec) inlinableLoops(callee *ssa.Function, loopsOK bool) bool {
 	if callee == nil || len(callee.Blocks) == 0 || len(callee.Blocks) > 60 || x.inlineDepth >= maxInlineDepth {
 		return false
 	}
@@ -41,14 +61,20 @@ func (x *Exec) inlinable(callee *ssa.Function) bool {
 	}
 	for _, b := range callee.Blocks {
 		for _, s := range b.Succs {
-			if s.Dominates(b) {
+			if s.Dominates(b) && !loopsOK {
 				return false // loop: needs an invariant, hence a contract
 			}
 		}
 		for _, in := range b.Instrs {
-			switch in.(type) {
-			case *ssa.Defer, *ssa.RunDefers, *ssa.Go, *ssa.Select, *ssa.MakeClosure, *ssa.Send, *ssa.Range, *ssa.Next:
+			switch in := in.(type) {
+			case *ssa.Defer, *ssa.RunDefers, *ssa.Go, *ssa.Select, *ssa.Send, *ssa.Range, *ssa.Next:
 				return false
+			case *ssa.MakeClosure:
+				// a method value (x.m) is fine: it binds only its receiver; a function
+				// literal would need its own contract
+				if f, ok := in.Fn.(*ssa.Function); !ok || !strings.HasPrefix(f.Synthetic, "bound method wrapper") {
+					return false
+				}
 			}
 		}
 	}
@@ -80,6 +106,7 @@ func (x *Exec) inlineCall(callee *ssa.Function, args []Val, ssaArgs []ssa.Value)
 		}
 	}
 	sub.st = x.st
+	sub.loopBase = x.inlineLoopBase[callee]
 	sub.findLoops()
 	e.assumptionsUsed["helpers without a contract are inlined at their call sites (loop-free, non-recursive, at most 3 deep): "+shortName(callee)] = true
 	for _, b := range sub.topoOrder() {
